@@ -40,12 +40,22 @@ structure St where
   fStartOpt : Option Int := none
   fEst : Option Int := none
   lastRate : Int := 0
-  sgte : Bool := false          -- CALLER-SUPPLIED start > ceiling in this case (tag of the known finding)
-  /-- the case lies in the property's domain (`0 < relay fee ≤ ceiling`): outside it the relay
-      floor and the cap contradict each other, so the case is only used for the
-      model-vs-code comparison (X) and never judged by the monitor. -/
-  judge : Bool := true
+  /-- the start rate was supplied by the caller (`StartingFeeRate = Some`). -/
+  callerStart : Bool := false
+  /-- the rate the fee function starts with (when it is used: conf target ≥ 2) and its ceiling. -/
+  startVal : Option Int := none
+  ceilVal : Int := 0
+  /-- `0 < relay fee ≤ ceiling`.  Outside this domain the relay floor and the cap contradict each
+      other: only `below-relay-floor` and the clauses broken by an ESTIMATED start above the
+      ceiling (conf target ≥ 1008 with relay > ceiling, or ceiling 0) are not judged there. -/
+  inDomain : Bool := true
   nUnjudged : Nat := 0
+  nEstDropped : Nat := 0
+  nNoTxRounding : Nat := 0
+  nNoTxAux : Nat := 0
+  nNoTxDust : Nat := 0
+  lastPubFee : Option Int := none
+  lastPubAtStart : Bool := false
   printedKnown : Nat := 0
   printedOther : Nat := 0
   pts : List (Nat × Int) := []  -- observed points of the schedule
@@ -99,18 +109,31 @@ def mismatch (s : St) (detail : String) : IO St := do
     IO.println s!"MISMATCH case={s.caseId} line={s.lines} {detail}"
   return { s with mismatches := s.mismatches + 1 }
 
-def monitor (s : St) (clause detail : String) : IO St := do
-  -- outside the property's domain: never judged
-  if !s.judge then return s
-  -- one report per clause and case
-  if s.fired.contains clause then return s
+def startAbove (s : St) : Bool :=
+  match s.startVal with
+  | some v => decide (v > s.ceilVal)
+  | none => false
+
+/-- Report a property failure.  `startCaused` says that the offending observation IS the start
+    rate (the rate observed equals the function's starting rate, or the tx was built at it).
+    Only then, and only if that start was supplied by the caller and is above the ceiling, the
+    line carries `start_gt_end=1` (known finding F-C18-start-above-ceiling).  The tag is per
+    line: any other failure of the same clause in the same case is reported untagged. -/
+def monitor (s : St) (clause detail : String) (startCaused : Bool := false) : IO St := do
+  let sc := startCaused && startAbove s
+  -- an ESTIMATED start above the ceiling exists only outside the property's domain
+  if sc && !s.callerStart && !s.inDomain then return { s with nEstDropped := s.nEstDropped + 1 }
+  let tagged := sc && s.callerStart
+  -- one report per clause, tag and case
+  let key := if tagged then clause ++ "#known" else clause
+  if s.fired.contains key then return s
   -- print caps are separate for lines of the known finding and for all others, so that a flood
   -- of known-finding lines can never hide a new failure
-  let printed := if s.sgte then s.printedKnown else s.printedOther
+  let printed := if tagged then s.printedKnown else s.printedOther
   if printed < 300 then
-    IO.println s!"MONITOR case={s.caseId} clause={clause} line={s.lines} start_gt_end={if s.sgte then 1 else 0} {detail}"
-  let s := if s.sgte then { s with printedKnown := s.printedKnown + 1 } else { s with printedOther := s.printedOther + 1 }
-  return { s with monitorFails := s.monitorFails + 1, fired := clause :: s.fired }
+    IO.println s!"MONITOR case={s.caseId} clause={clause} line={s.lines} start_gt_end={if tagged then 1 else 0} {detail}"
+  let s := if tagged then { s with printedKnown := s.printedKnown + 1 } else { s with printedOther := s.printedOther + 1 }
+  return { s with monitorFails := s.monitorFails + 1, fired := key :: s.fired }
 
 def after (ws : List String) : List String :=
   match ws.dropWhile (· ≠ "=>") with
@@ -153,19 +176,24 @@ def ffFields (f : FeeFn) : String :=
   s!"start={f.start} end={f.end_} cur={f.cur} width={f.width} pos={f.pos} delta={f.delta}"
 
 /-- monitor bookkeeping for one observation of the fee function `(pos, rate)`. -/
-def observe (s : St) (p : Nat) (r : Int) (isState : Bool) : IO St := do
+def observe (s : St) (p : Nat) (r : Int) (isState : Bool) (agrees : Bool) : IO St := do
+  -- `agrees`: the observation equals what the model predicts for this position.  With a start above
+  -- the ceiling the code's delta is negative and the schedule first drops to the ceiling and,
+  -- close to the width, even below it; such a non-monotone observation is attributed to the
+  -- known finding only if it is exactly the value the (defect-containing) model predicts.
   let mut s := s
   if r > s.fEnd then
-    s ← monitor s "rate-above-ceiling" s!"rate={r} end={s.fEnd} pos={p}"
+    s ← monitor s "rate-above-ceiling" s!"rate={r} end={s.fEnd} pos={p}" (r == s.fStart)
   if p ≥ s.fWidth && r != s.fEnd then
     s ← monitor s "below-ceiling-at-deadline" s!"pos={p} width={s.fWidth} rate={r} end={s.fEnd}"
   for (p', r') in s.pts do
-    if (p ≤ p' && r > r') || (p' ≤ p && r' > r) then
-      s ← monitor s "schedule-not-monotone" s!"rate({p})={r} rate({p'})={r'}"
-      break
+    if p ≤ p' && r > r' then
+      s ← monitor s "schedule-not-monotone" s!"rate({p})={r} rate({p'})={r'}" agrees
+    else if p' ≤ p && r' > r then
+      s ← monitor s "schedule-not-monotone" s!"rate({p'})={r'} rate({p})={r}" agrees
   if isState then
     if r < s.lastRate then
-      s ← monitor s "rate-decreased" s!"rate {s.lastRate} -> {r} at pos={p}"
+      s ← monitor s "rate-decreased" s!"rate {s.lastRate} -> {r} at pos={p}" agrees
     s := { s with lastRate := r }
   let pts := if s.pts.length < 64 then (p, r) :: s.pts else s.pts
   return { s with pts := pts }
@@ -190,7 +218,7 @@ def ffOp (s : St) (ws : List String) (op : Op) : IO St := do
   if mInc != inc || mErr != err || g.cur != rate || g.pos != pos then
     s ← mismatch s s!"ff op: model=inc={mInc},err={mErr},rate={g.cur},pos={g.pos} impl=inc={inc},err={err},rate={rate},pos={pos}"
   -- (S)
-  s ← observe s pos rate true
+  s ← observe s pos rate true (g.cur == rate && g.pos == pos)
   match op with
   | .ict ct =>
     if ct ≤ 1 && rate != s.fEnd then
@@ -234,20 +262,28 @@ def monitorTx (s : St) (t : TxLine) : IO St := do
         break
     | none => seenPlain := true
     k := k + 1
-  -- change outputs
+  -- no output below the dust limit of its script: change (delivery script), required outputs
+  -- (p2wsh in the harness) and the aux sweeper's extra output (p2tr in the harness)
   let changes := t.outs.filter (·.1 == "c")
   let dust := dustOf s.script
   if changes.length > 1 then
     s ← monitor s "dust-output" s!"{changes.length} change outputs"
-  for (_, v) in changes do
-    if v < dust then
-      s ← monitor s "dust-output" s!"change output {v} below dust limit {dust} ({s.script})"
+  for (kd, v) in t.outs do
+    let lim := if kd == "c" then dust else if kd == "r" then dustOf "p2wsh" else dustOf "p2tr"
+    if v < lim then
+      s ← monitor s "dust-output" s!"output {kd}{v} below dust limit {lim}"
   if t.outs.isEmpty then
     s ← monitor s "dust-output" "transaction without outputs"
-  -- the fee implied by the configured maximum rate (dust change may be added)
+  -- rate clauses from the transaction itself: fee = rate*weight/1000 (+ a below-dust change)
   let slack : Int := if changes.isEmpty then dust - 1 else 0
-  if fee > Int.tdiv (s.req.maxFeeRate * s.req.wTx) 1000 + slack then
-    s ← monitor s "rate-above-max" s!"fee={fee} weight={s.req.wTx} maxrate={s.req.maxFeeRate}"
+  let feeAt (rate : Int) : Int := Int.tdiv (rate * s.req.wTx) 1000
+  let atStart := match s.startVal with
+    | some st => decide (feeAt st ≤ fee) && decide (fee ≤ feeAt st + slack)
+    | none => false
+  if fee > feeAt s.req.maxFeeRate + slack then
+    s ← monitor s "rate-above-max" s!"fee={fee} weight={s.req.wTx} maxrate={s.req.maxFeeRate}" atStart
+  if fee > feeAt s.mfra + slack then
+    s ← monitor s "rate-above-ceiling" s!"fee={fee} weight={s.req.wTx} ceiling={s.mfra}" atStart
   if changes.isEmpty then s := { s with nDustFolded := s.nDustFolded + 1 }
   if (t.outs.filter (·.1 == "r")).length > 0 then s := { s with nReqTx := s.nReqTx + 1 }
   return { s with nTx := s.nTx + 1 }
@@ -291,36 +327,57 @@ def pubRes (s : St) (ws : List String) : IO St := do
   if out.emitted.length != txs.length || !((out.emitted.zip txs).all (fun p => txEq p.1 p.2)) then
     s ← mismatch s s!"{s.opKind}: emitted txs differ: model={out.emitted.map (fun e => (e.1, e.2.ins, e.2.outs.map (·.2), e.2.locktime))} impl={txs.map (fun t => (t.published, t.ins, t.outs.map (·.2), t.locktime))}"
   -- (S)
-  -- all rate clauses are judged on the transactions actually handed to the wallet for broadcast
-  let above := ffok && ffstart > ffend
-  if s.opKind == "init" then
-    if above then s := { s with nSgte := s.nSgte + 1 }
-    s := { s with sgte := above && s.req.start.isSome && s.judge }
+  -- all rate clauses are judged on the transactions actually handed to the wallet for broadcast,
+  -- from their own fee and weight
+  if s.opKind == "init" && ffok then
+    if ffstart > ffend then s := { s with nSgte := s.nSgte + 1 }
+    s := { s with startVal := (if width > 0 then some ffstart else none), ceilVal := ffend }
+  let atDeadline := decide (s.req.deadline - s.opHeight ≤ 1)
+  let feeAt (r : Int) : Int := Int.tdiv (r * s.req.wTx) 1000
   let published := ev == "Published" || ev == "Replaced"
   if published then
-    -- the claimed fee must be the real fee of the published tx
     match txs.getLast? with
-    | some t =>
-      if fee != t.sumin - t.sumout then
-        s ← monitor s "fee-accounting" s!"claimed fee {fee}, inputs - outputs = {t.sumin - t.sumout}"
     | none => s ← monitor s "fee-accounting" "published event without a transaction"
-    if rate > s.req.maxFeeRate then
-      s ← monitor s "rate-above-max" s!"published at rate {rate} > MaxFeeRate {s.req.maxFeeRate}"
-    if rate > s.mfra then
-      s ← monitor s "rate-above-ceiling" s!"published at rate {rate} > ceiling {s.mfra}"
-    match s.lastPubRate with
-    | some l =>
-      if rate < l then s ← monitor s "rate-decreased" s!"published rate {l} -> {rate}"
-    | none => pure ()
-    if s.req.deadline - s.opHeight ≤ 1 then
-      if rate != s.mfra then
-        s ← monitor s "below-ceiling-at-deadline" s!"height={s.opHeight} deadline={s.req.deadline} published rate={rate} ceiling={s.mfra}"
-      else s := { s with nCeiling := s.nCeiling + 1 }
-    if ev == "Published" && s.req.start.isNone && rate < s.relay then
-      s ← monitor s "below-relay-floor" s!"first tx published at {rate} < relay fee {s.relay} (estimated start)"
-    if ffok && ffend != s.mfra then
-      s ← monitor s "ceiling" s!"fee function ceiling {ffend} != MaxFeeRateAllowed {s.mfra}"
-    s := { s with lastPubRate := some rate, nontriv := s.nontriv + 1 }
+    | some t =>
+      let pfee := t.sumin - t.sumout
+      let slack : Int := if (t.outs.filter (·.1 == "c")).isEmpty then dustOf s.script - 1 else 0
+      let atStart := match s.startVal with
+        | some st => decide (feeAt st ≤ pfee) && decide (pfee ≤ feeAt st + slack)
+        | none => false
+      -- the claimed fee and rate must be those of the published tx
+      if fee != pfee then
+        s ← monitor s "fee-accounting" s!"claimed fee {fee}, inputs - outputs = {pfee}"
+      if !(feeAt rate ≤ pfee && pfee ≤ feeAt rate + slack) then
+        s ← monitor s "fee-accounting" s!"claimed rate {rate} (fee {feeAt rate}) but the tx pays {pfee} for weight {s.req.wTx}"
+      if rate > s.req.maxFeeRate then
+        s ← monitor s "rate-above-max" s!"published at rate {rate} > MaxFeeRate {s.req.maxFeeRate}" atStart
+      match s.lastPubFee with
+      | some l =>
+        if pfee < l then
+          s ← monitor s "rate-decreased" s!"published fee {l} -> {pfee} (same weight {s.req.wTx})" s.lastPubAtStart
+      | none => pure ()
+      if atDeadline then
+        if pfee < feeAt s.mfra then
+          s ← monitor s "below-ceiling-at-deadline" s!"height={s.opHeight} deadline={s.req.deadline} published fee={pfee} < fee at the ceiling {s.mfra} = {feeAt s.mfra}"
+        else s := { s with nCeiling := s.nCeiling + 1 }
+      -- relay floor: estimated start, or a caller-supplied start that is itself >= relay
+      let floorApplies := match s.req.start with
+        | none => true
+        | some st => decide (st ≥ s.relay)
+      if s.inDomain && floorApplies && pfee < feeAt s.relay then
+        s ← monitor s "below-relay-floor" s!"tx published with fee {pfee} < fee at the relay rate {s.relay} = {feeAt s.relay}"
+      if ffok && ffend != s.mfra then
+        s ← monitor s "ceiling" s!"fee function ceiling {ffend} != MaxFeeRateAllowed {s.mfra}"
+      s := { s with lastPubFee := some pfee, lastPubAtStart := atStart, nontriv := s.nontriv + 1 }
+  -- nothing is offered at the ceiling by the deadline: the bump/broadcast one block before the
+  -- deadline (or later) fails with ErrNotEnoughBudget although the fee function is at the ceiling
+  if atDeadline && ev == "Failed" && err == "budget" && ffok && cur == ffend && ffend == s.mfra then
+    let why := if feeAt s.mfra > s.req.budget then
+        (if s.req.wTx == s.req.wBudget then "rounding" else "aux-weight") else "dust-fold"
+    s ← monitor s "no-tx-at-ceiling-by-deadline" s!"why={why} height={s.opHeight} deadline={s.req.deadline} ceiling={s.mfra} budget={s.req.budget} wb={s.req.wBudget} wtx={s.req.wTx} fee_at_ceiling={feeAt s.mfra}"
+    if why == "rounding" then s := { s with nNoTxRounding := s.nNoTxRounding + 1 }
+    else if why == "aux-weight" then s := { s with nNoTxAux := s.nNoTxAux + 1 }
+    else s := { s with nNoTxDust := s.nNoTxDust + 1 }
   if ev == "Published" then s := { s with nPublished := s.nPublished + 1 }
   else if ev == "Replaced" then s := { s with nReplaced := s.nReplaced + 1 }
   else if ev == "Failed" then s := { s with nFailed := s.nFailed + 1, nontriv := s.nontriv + 1 }
@@ -344,7 +401,8 @@ def step (s : St) (line : String) : IO St := do
     chk s "dust_p2tr" (dustOf "p2tr")
   | "CASE" :: id :: rest =>
     let kind := (kv? rest "kind").getD ""
-    let mut s := { s with caseId := id, kind := kind, cases := s.cases + 1, ff := none, sgte := false, judge := true,
+    let mut s := { s with caseId := id, kind := kind, cases := s.cases + 1, ff := none, callerStart := false, startVal := none, ceilVal := 0, inDomain := true,
+                          lastPubFee := none, lastPubAtStart := false,
                           pts := [], fired := [], lastPubRate := none, lastCur := none, rcd := {}, opTxs := [] }
     if s.samples < 2 || (kind == "pub" && s.samples < 5 && s.nPub < 3) then
       IO.println s!"SAMPLE {line}"
@@ -357,7 +415,8 @@ def step (s : St) (line : String) : IO St := do
                     fEstPath := (kv? rest "start") == some "none", nFF := s.nFF + 1 }
       let rl := (kvInt? rest "relay").getD 0
       let inDomain := decide (0 < rl) && decide (rl ≤ e)
-      s := { s with judge := inDomain, nUnjudged := s.nUnjudged + (if inDomain then 0 else 1) }
+      s := { s with inDomain := inDomain, ceilVal := e, callerStart := (optInt (kv? rest "start")).isSome,
+                    nUnjudged := s.nUnjudged + (if inDomain then 0 else 1) }
     if kind == "pub" then
       let script := (kv? rest "script").getD ""
       s := { s with
@@ -368,7 +427,7 @@ def step (s : St) (line : String) : IO St := do
                  wBudget := (kvNat? rest "wb").getD 1, wTx := (kvNat? rest "wtx").getD 1,
                  dust := (kvInt? rest "dust").getD 0, extra := optInt (kv? rest "aux") },
         script := script, relay := (kvInt? rest "relay").getD 0, est := optInt (kv? rest "est"),
-        nPub := s.nPub + 1 }
+        callerStart := (optInt (kv? rest "start")).isSome, nPub := s.nPub + 1 }
       if (kvInt? rest "dust").getD 0 != dustOf script then
         s ← mismatch s s!"dust limit of {script}: impl={(kv? rest "dust").getD "?"} table={dustOf script}"
     return s
@@ -434,16 +493,16 @@ def step (s : St) (line : String) : IO St := do
       -- (S)
       let above := impl.start > impl.end_
       s := { s with fStart := impl.start, fWidth := impl.width, lastRate := impl.cur,
-                    sgte := above && s.fStartOpt.isSome && s.judge,
+                    startVal := (if impl.width > 0 then some impl.start else none), ceilVal := impl.end_,
                     nSgte := s.nSgte + (if above then 1 else 0), maxWidth := max s.maxWidth impl.width,
                     nontriv := s.nontriv + 1 }
       if impl.end_ != s.fEnd then
         s ← monitor s "ceiling" s!"endingFeeRate {impl.end_} != requested max {s.fEnd}"
       if s.fCt ≤ 1 && impl.cur != s.fEnd then
         s ← monitor s "below-ceiling-at-deadline" s!"conf target {s.fCt} at creation but rate={impl.cur} end={s.fEnd}"
-      if s.fEstPath && s.fCt ≥ 2 && s.fEnd ≥ s.fRelay && impl.start < s.fRelay then
+      if s.inDomain && s.fEstPath && s.fCt ≥ 2 && impl.start < s.fRelay then
         s ← monitor s "below-relay-floor" s!"estimated starting rate {impl.start} < relay fee {s.fRelay}"
-      observe s impl.pos impl.cur false
+      observe s impl.pos impl.cur false (match model with | .ok f => f == impl | .error _ => false)
     | w :: _ =>
       let e := (w.splitOn "=").getLast!
       let s := { s with nFFErr := s.nFFErr + 1 }
@@ -462,7 +521,7 @@ def step (s : St) (line : String) : IO St := do
     let some f := s.ff | mismatch s "at without fee function"
     let mut s := s
     if f.rateAt M p != impl then s ← mismatch s s!"at {p}: model={f.rateAt M p} impl={impl}"
-    observe s p impl false
+    observe s p impl false (f.rateAt M p == impl)
   | "in" :: rest =>
     let i : Inp := ⟨(kvInt? rest "value").getD 0, optInt (kv? rest "req"),
                    (optInt (kv? rest "lt")).map Int.toNat⟩
@@ -484,16 +543,21 @@ def step (s : St) (line : String) : IO St := do
       s ← monitor s "ceiling" s!"MaxFeeRateAllowed={impl} budget={b} weight={w} maxrate={s.req.maxFeeRate}"
     -- the property's domain: 0 < relay fee <= ceiling
     let inDomain := decide (0 < s.relay) && decide (s.relay ≤ impl)
-    return { s with judge := inDomain, nUnjudged := s.nUnjudged + (if inDomain then 0 else 1) }
+    return { s with inDomain := inDomain, ceilVal := impl, nUnjudged := s.nUnjudged + (if inDomain then 0 else 1) }
   | "op" :: k :: rest =>
-    -- tag of the known finding (starting rate above the ceiling): known before the
-    -- operation from the case header and the implementation's own ceiling
+    -- the rate the fee function will start with (needed to attribute failures of the tx lines
+    -- that precede the `res` line): from the case header and the implementation's own ceiling
     let h := (kvInt? rest "height").getD 0
     let ct : Int := if s.req.deadline - h < 0 then 0 else s.req.deadline - h
-    let preCaller := match s.req.start with
-      | some st => ct ≥ 2 && st > s.mfra && s.judge
-      | none => false
-    let s := if k == "init" then { s with sgte := preCaller } else s
+    let estStart : Option Int :=
+      if ct ≥ 1008 then some s.relay
+      else match s.est with
+        | none => none
+        | some e => if e < s.relay then none else if s.mfra != 0 && e > s.mfra then some s.mfra else some e
+    let sv : Option Int := if ct ≤ 1 then none else match s.req.start with
+      | some st => some st
+      | none => estStart
+    let s := if k == "init" then { s with startVal := sv, ceilVal := s.mfra } else s
     return { s with opKind := k, opHeight := (kvInt? rest "height").getD 0,
                     opMp := (parseList ((kv? rest "mp").getD "-")).map parseAns,
                     opPub := ((parseList ((kv? rest "pub").getD "-")).head?.map parseAns).getD .ok,
@@ -531,7 +595,11 @@ def main : IO Unit := do
   IO.println s!"STAT ff_max_width={s.maxWidth}"
   IO.println s!"STAT ceiling_reached={s.nCeiling}"
   IO.println s!"STAT start_above_end_cases={s.nSgte}"
-  IO.println s!"STAT cases_outside_domain_not_judged={s.nUnjudged}"
+  IO.println s!"STAT cases_outside_domain={s.nUnjudged}"
+  IO.println s!"STAT estimated_start_above_ceiling_lines_not_judged={s.nEstDropped}"
+  IO.println s!"STAT no_tx_at_ceiling_rounding={s.nNoTxRounding}"
+  IO.println s!"STAT no_tx_at_ceiling_aux_weight={s.nNoTxAux}"
+  IO.println s!"STAT no_tx_at_ceiling_dust_fold={s.nNoTxDust}"
   IO.println s!"STAT pub_cases={s.nPub}"
   IO.println s!"STAT txs_seen={s.nTx}"
   IO.println s!"STAT txs_with_required_outputs={s.nReqTx}"
